@@ -3,8 +3,8 @@ import Vflow.Model.Producer
 
 For scripts whose outcome is fixed by the script itself (unix sockets: a write to a connection the
 peer has closed fails with EPIPE at once, a connect to a removed socket fails at once; any protocol
-with no fault) the driver derives the outcome script the producer will experience from a two-bit
-model of the sink (current connection broken? listener up?), runs the proved model
+with no fault) the driver derives the outcome script the producer will experience from a three-bit
+model of the sink (current connection broken? listener up? stalled, about to kill a write half-way?), runs the proved model
 `Vflow.Producer.run` on it and prints what the sink must have received and the error counter.
 Faults on tcp/udp depend on kernel timing: `nd`. -/
 namespace Driver
@@ -13,12 +13,19 @@ open Vflow Vflow.Producer
 structure SinkEnv where
   broken : Bool := false
   up : Bool := true
+  /-- `s<k>`: the sink is stalled and will kill the first write of this message that reaches a live
+      connection, while the producer is blocked in the middle of it -/
+  stallPending : Bool := false
 
-/-- outcomes of the writes and redials one message will experience on a unix socket -/
+/-- outcomes of the writes and redials one message will experience on a unix socket: a write on a
+    dead connection fails with EPIPE at once; a write killed in the middle (`stallPending`) fails
+    with EPIPE after part of the line went out — for the loop the same failed write -/
 def envAttempts : Nat → SinkEnv → List WOut × List DOut × SinkEnv
   | left, e =>
-    if e.broken then
-      let de : DOut × SinkEnv := if e.up then (.ok, { e with broken := false }) else (.fail, e)
+    if e.broken || e.stallPending then
+      let e0 : SinkEnv := if e.broken then e else { e with stallPending := false }
+      let de : DOut × SinkEnv :=
+        if e0.up then (.ok, { e0 with broken := false }) else (.fail, { e0 with broken := true })
       match left with
       | 0 => ([.errPipe], [de.1], de.2)
       | l+1 =>
@@ -30,7 +37,8 @@ def applyEvent (e : SinkEnv) (kind : Char) : SinkEnv :=
   match kind with
   | 'c' => { e with broken := true }
   | 'r' => { e with broken := true }
-  | 'd' => { broken := true, up := false }
+  | 's' => { e with stallPending := true }
+  | 'd' => { e with broken := true, up := false }
   | 'u' => { e with up := true }
   | _ => e
 
@@ -39,7 +47,8 @@ def envScript (rm : Nat) (events : List (Char × Nat)) : Nat → Nat → SinkEnv
   | n+1, k, e =>
     let e1 := (events.filter (·.2 == k)).foldl (fun a ev => applyEvent a ev.1) e
     let r := envAttempts rm e1
-    let rest := envScript rm events n (k + 1) r.2.2
+    -- the stall ends with the message (the sink reads again whether or not it killed a write)
+    let rest := envScript rm events n (k + 1) { r.2.2 with stallPending := false }
     (r.1 ++ rest.1, r.2.1 ++ rest.2)
 
 def parseEvents (s : String) : Option (List (Char × Nat)) :=
